@@ -45,7 +45,7 @@ Definition quake_expected (st : qstate) : option qresponse :=
         either (str "mapname") (str "map") (qs_vars st),
         either (str "maxclients") (str "sv_maxclients") (qs_vars st) with
   | Some name, Some map, Some maxc =>
-      match dec_read maxc with
+      match parse_unsigned 255 maxc with    (* a u8, written in decimal *)
       | Some m =>
           Some (mk_qresp name map (qs_players st) (lenN (qs_players st) mod 256) m
                   (either (str "version") (str "*version") (qs_vars st))
